@@ -69,6 +69,16 @@ Theorem C04g_iter :
 Proof. exact g_iter. Qed.
 Print Assumptions C04g_iter.
 
+Theorem C04g_history :
+  forall (m : N) (ops : list op),
+       m <= 4294967295 ->
+       Forall (op_ok m) ops ->
+       exists s : FastSet,
+         fold_left step_gen ops (M_FastSet_new m) = Some s /\
+         inv s /\ FastSet_max s = m /\ abs s = fold_left step_model ops [].
+Proof. exact g_history. Qed.
+Print Assumptions C04g_history.
+
 Theorem C04g_example :
   option_map abs
          (fold_left step_gen [Ins 10; Ins 20; Ins 10; Ins 40; Rem 30; Rem 10; Ins 7]
